@@ -419,7 +419,14 @@ func c08Pipeline(c *Ctx, w *ws.Workspace, units []rt.JobUnit, probesOnly bool) (
 	if d.routes, err = runNode(c, w, ops); err != nil {
 		return nil, err
 	}
-	for k, tc := range firstCase {
+	firstRPC := map[string]*rt.TSCase{}
+	for _, id := range d.order {
+		tc := d.cases[id]
+		if k := tc.Unit + "|" + tc.Svc + "|" + tc.RPC; firstRPC[k] == nil {
+			firstRPC[k] = tc
+		}
+	}
+	for k, tc := range firstRPC {
 		u := w.Unit(tc.Unit)
 		src := ""
 		for n, content := range u.TSFiles {
@@ -621,62 +628,104 @@ func c08Judge(r *report.Run, w *ws.Workspace, d *tsData) {
 		}
 	}
 	// header helpers (TS side): every declared header has an option that sets exactly that header
+	// setsAnywhere[unit|svc][helper/level] = headers the option was seen to set on some RPC of the service
+	setsAnywhere := map[string]map[string]map[string]bool{}
 	for k, h := range d.helpers {
-		parts := strings.SplitN(k, "|", 2)
+		parts := strings.SplitN(k, "|", 3)
+		sk := parts[0] + "|" + parts[1]
+		hs, _ := h["helpers"].([]any)
+		for _, x := range hs {
+			hm, _ := x.(map[string]any)
+			under, _ := hm["under"].([]any)
+			for _, un := range under {
+				if setsAnywhere[sk] == nil {
+					setsAnywhere[sk] = map[string]map[string]bool{}
+				}
+				hk := str(hm, "helper") + "/" + str(hm, "level")
+				if setsAnywhere[sk][hk] == nil {
+					setsAnywhere[sk][hk] = map[string]bool{}
+				}
+				setsAnywhere[sk][hk][strings.ToLower(fmt.Sprint(un))] = true
+			}
+		}
+	}
+	for k, h := range d.helpers {
+		parts := strings.SplitN(k, "|", 3)
 		u := w.Unit(parts[0])
 		ju := JobUnitFor(u)
 		for _, js := range ju.Services {
 			if js.Name != parts[1] {
 				continue
 			}
-			declared := map[string]string{} // lower name -> level
+			declared := map[string]string{} // lower name -> level, whole service
+			here := map[string]bool{}       // headers declared for this RPC
 			for _, m := range js.Methods {
 				for _, hd := range m.SvcHeaders {
 					declared[strings.ToLower(hd.Name)] = "client"
+					if m.Name == parts[2] {
+						here[strings.ToLower(hd.Name)] = true
+					}
 				}
 				for _, hd := range m.MethHeaders {
 					if _, ok := declared[strings.ToLower(hd.Name)]; !ok {
 						declared[strings.ToLower(hd.Name)] = "call"
 					}
+					if m.Name == parts[2] {
+						here[strings.ToLower(hd.Name)] = true
+					}
 				}
 			}
-			covered := map[string]bool{}
 			hs, _ := h["helpers"].([]any)
 			for _, x := range hs {
 				hm, _ := x.(map[string]any)
 				under, _ := hm["under"].([]any)
-				cell := fmt.Sprintf("%s,service=%s,helper=%s,level=%s", ju.Cell, js.Name, str(hm, "helper"), str(hm, "level"))
+				cell := fmt.Sprintf("%s,service=%s,rpc=%s,helper=%s,level=%s", ju.Cell, js.Name, parts[2], str(hm, "helper"), str(hm, "level"))
 				if e := str(hm, "error"); e != "" {
 					continue // option not offered at this level
 				}
-				if len(under) == 0 {
-					// the option exists only at the other level: fine
-					continue
-				}
+				got := map[string]bool{}
 				for _, un := range under {
 					name := strings.ToLower(fmt.Sprint(un))
+					got[name] = true
 					if _, ok := declared[name]; !ok {
 						r.Violate(cell, "header_helper_wrong_name", fmt.Sprintf("TS option %s puts its value under header %v which no service or method declares", str(hm, "helper"), un), nil)
 						r.Case(cell, "header_helper_wrong_name", true)
 					} else {
-						covered[name] = true
 						r.Case(cell, "header_helper_sets_declared_header", true)
 					}
 				}
+				// the same option, on an RPC that declares the header it stands for, must set it there too
+				for name := range setsAnywhere[parts[0]+"|"+parts[1]][str(hm, "helper")+"/"+str(hm, "level")] {
+					if here[name] && !got[name] {
+						r.Violate(cell, "header_helper_ineffective", fmt.Sprintf("TS option %s (%s level) sets header %s on another RPC of the service but not on %s, which declares it", str(hm, "helper"), str(hm, "level"), name, parts[2]), nil)
+						r.Case(cell, "header_helper_ineffective", true)
+					}
+				}
 			}
-			_ = covered
 		}
 	}
 }
 
 // c08JudgeGoHelpers: every typed header helper of the Go client sets a header that the service declares.
 func c08JudgeGoHelpers(r *report.Run, w *ws.Workspace, d *tsData) {
+	setsAnywhere := map[string]map[string]bool{}
+	for _, h := range d.goHelpers {
+		k := str(h, "unit") + "|" + str(h, "svc") + "|" + str(h, "helper") + "/" + str(h, "level")
+		under, _ := h["under"].([]any)
+		for _, un := range under {
+			if setsAnywhere[k] == nil {
+				setsAnywhere[k] = map[string]bool{}
+			}
+			setsAnywhere[k][strings.ToLower(fmt.Sprint(un))] = true
+		}
+	}
 	for _, h := range d.goHelpers {
 		u := w.Unit(str(h, "unit"))
 		if u == nil {
 			continue
 		}
 		declared := map[string]bool{}
+		here := map[string]bool{}
 		for _, js := range JobUnitFor(u).Services {
 			if js.Name != str(h, "svc") {
 				continue
@@ -684,15 +733,31 @@ func c08JudgeGoHelpers(r *report.Run, w *ws.Workspace, d *tsData) {
 			for _, m := range js.Methods {
 				for _, hd := range append(append([]rt.JobHeader{}, m.SvcHeaders...), m.MethHeaders...) {
 					declared[strings.ToLower(hd.Name)] = true
+					if m.Name == str(h, "rpc") {
+						here[strings.ToLower(hd.Name)] = true
+					}
 				}
 			}
 		}
-		cell := fmt.Sprintf("%s,service=%s,helper=%s,level=%s,client=go", str(h, "cell"), str(h, "svc"), str(h, "helper"), str(h, "level"))
+		cell := fmt.Sprintf("%s,service=%s,rpc=%s,helper=%s,level=%s,client=go", str(h, "cell"), str(h, "svc"), str(h, "rpc"), str(h, "helper"), str(h, "level"))
 		under, _ := h["under"].([]any)
-		if len(under) == 0 {
-			r.Violate(cell, "header_helper_wrong_name", "the helper did not put its value under any header", nil)
-			r.Case(cell, "header_helper_sets_nothing", true)
+		got := map[string]bool{}
+		for _, un := range under {
+			got[strings.ToLower(fmt.Sprint(un))] = true
+		}
+		any := setsAnywhere[str(h, "unit")+"|"+str(h, "svc")+"|"+str(h, "helper")+"/"+str(h, "level")]
+		if len(any) == 0 {
+			if str(h, "first") == "true" {
+				r.Violate(cell, "header_helper_wrong_name", "the helper did not put its value under any header on any RPC", nil)
+				r.Case(cell, "header_helper_sets_nothing", true)
+			}
 			continue
+		}
+		for name := range any {
+			if here[name] && !got[name] {
+				r.Violate(cell, "header_helper_ineffective", fmt.Sprintf("Go helper %s (%s level) sets header %s on another RPC of the service but not on %s, which declares it", str(h, "helper"), str(h, "level"), name, str(h, "rpc")), nil)
+				r.Case(cell, "header_helper_ineffective", true)
+			}
 		}
 		for _, un := range under {
 			if !declared[strings.ToLower(fmt.Sprint(un))] {
